@@ -81,10 +81,15 @@ def build_race2_plan(rng, tier, prop=None):
 		cmd(1, "SETFH %d 0 %s" % (rng.choice([0, 5, 17]), " ".join("%d %d" % (ms_hop, B) for _ in range(rng.choice([1, 2, 3])))))
 	recips = [1, 4]
 	for r in recips:
-		if rng.random() < 0.3:
-			cmd(r, "FAKE_RSSI %d %d" % (rng.choice([-60, -75, -90]), rng.choice([0, 3, 10])))
-		if rng.random() < 0.3:
-			cmd(r, "FAKE_TOA %d %d" % (rng.choice([0, 100, -300]), rng.choice([0, 20])))
+		# in the "meta" family the windows are mostly randomised ones already (threshold > 0), so
+		# that a racing FAKE_* command meets code that is computing a window
+		pm = 0.6 if family == "meta" else 0.3
+		if rng.random() < pm:
+			cmd(r, "FAKE_RSSI %d %d" % (rng.choice([-60, -75, -90]), rng.choice([3, 10] if family == "meta" else [0, 3, 10])))
+		if rng.random() < pm:
+			cmd(r, "FAKE_TOA %d %d" % (rng.choice([0, 100, -300]), rng.choice([20, 60] if family == "meta" else [0, 20])))
+		if family == "meta" and rng.random() < 0.5:
+			cmd(r, "FAKE_CI %d %d" % (rng.choice([90, 60]), rng.choice([5, 15])))
 		if rng.random() < 0.35:
 			cmd(r, "FAKE_DROP %d" % rng.choice([1, 1, 2, 3]))
 		if rng.random() < 0.15:
